@@ -1127,7 +1127,7 @@ def run_cases(ctx, cases, tmp, workers):
 def run(ctx):
     rng = ctx.rng
     quick = ctx.tier == 'quick'
-    n_clean, n_struct, n_mal, n_42 = (70, 70, 50, 4) if quick else (900, 900, 500, 30)
+    n_clean, n_struct, n_mal, n_42 = (200, 200, 110, 6) if quick else (2400, 2400, 1200, 60)
     workers = min(14, os.cpu_count() or 4)
     ctx.cov['rule'] = ('one case = one dictionary through the real generator in a fresh process: "clean" (standard header/trailer, tags '
                        'distinct per message; structure + build/encode/decode/validate/frame plans), "structural" (free reuse of fields, '
